@@ -124,6 +124,10 @@ def main(argv):
     if spec.get("home_mode") == "default":
         os.environ.pop("TRAFFIC_WEAVER_DATA", None)
         os.environ["HOME"] = home
+    elif spec.get("home_mode") == "tilde":
+        # the variable is given the way .env files / unit files give it: relative to the home directory
+        os.environ["HOME"] = spec["user_home"]
+        os.environ["TRAFFIC_WEAVER_DATA"] = spec["tilde_value"]
     else:
         os.environ["TRAFFIC_WEAVER_DATA"] = home
         # a loader that ignored the variable must not reach the real home directory: stray writes land in scratch
